@@ -15,7 +15,7 @@ func init() {
 		ID:          "C10",
 		Level:       "exploration",
 		CaseTimeout: 45e9, // a case of this check takes milliseconds; one that does not end is cut after 45 s
-		Rule: "seeded multi-replica histories; at a random point (states with tombstones, superseded nested containers, updated array slots, lost-LWW values) replica R exports (meta, snapshot) which is imported into a fresh instance R' the way the SDK initialises one (SetMetaAndSnapshot + ResetTransaction); R and R' then receive the same continuation (local calls, failing and committed transactions, remote deliveries that address old tombstones and containers) and are compared after every step: return values, ToJSON, sizes, element reads, emitted operation ids and bodies; up to four more times during the continuation, and at the end, both are exported again and the snapshots compared in canonical form (an export that lags behind the state shows here) and the pair continues from a fresh restore of the later export, and export(import(export(R))) is compared with export(R); " +
+		Rule: "seeded multi-replica histories; at a random point (states with tombstones, superseded nested containers, updated array slots, lost-LWW values) replica R exports (meta, snapshot) which is imported into a fresh instance R' the way the SDK initialises one (SetMetaAndSnapshot + ResetTransaction); R and R' then receive the same continuation (local calls, failing and committed transactions, remote deliveries that address old tombstones and containers) and are compared after every step: return values, ToJSON, sizes, element reads, emitted operation ids and bodies; up to four more times during the continuation, and at the end, both are exported again and the snapshots compared in canonical form (an export that lags behind the state shows here) and the pair continues from a fresh restore of the later export, and export(import(export(R))) is compared with export(R); in half of the restores two more instances are imported, one the SDK's way and one the server's way (SetMetaAndSnapshot + ResetWired), and up to three successful local calls must leave both with the same readable state; " +
 			"non-trivial = the exported state held a tombstone or a superseded container and the continuation delivered >=1 remote operation and >=3 local calls; distinct = hash of the step script",
 		Assumptions: []string{
 			"import = SetMetaAndSnapshot followed by ResetTransaction, as the SDK's own init does; a bare SetMetaAndSnapshot followed by a failing user transaction is outside the claim (DESIGN.md D18)",
@@ -234,6 +234,48 @@ func runC10(c *core.Case) *core.Result {
 			}
 			if res := mirror("right after import"); res != nil {
 				return res
+			}
+			// the server restores an instance in its own way - import, then ResetWired (the fresh
+			// instance's creation operation must never reach the log), then local calls (a REST
+			// patch). What a successful local call does to the readable state must not depend on
+			// which of the two ways restored the instance it is made on.
+			if r.Intn(2) == 0 {
+				U, S := crdt.NewRep(0, sh.typ), crdt.NewRep(0, sh.typ)
+				var e1, e2 error
+				if pm := safely(func() {
+					if e := U.W.SetMetaAndSnapshot(meta, snap); e != nil {
+						e1 = e
+					}
+					U.ResetTransaction()
+					if e := S.W.SetMetaAndSnapshot(meta, snap); e != nil {
+						e2 = e
+					}
+					S.W.ResetWired()
+				}); pm != "" || e1 != nil || e2 != nil {
+					return c.Violation(sh.typ+":import-panic", "importing an exported snapshot a second time failed: %s %v %v", pm, e1, e2)
+				}
+				for j := 0; j < 3; j++ {
+					op := g.Op(U)
+					var eu, es error
+					if pm := safely(func() {
+						_, eu = crdt.Apply(U.DT, op)
+						if eu == nil {
+							_, es = crdt.Apply(S.DT, op)
+						}
+					}); pm != "" {
+						return c.Violation(sh.typ+":server-restore-panic", "call %s on an instance restored the server's way (import + ResetWired) panicked: %s", op, pm)
+					}
+					if eu != nil {
+						break // a refused call says nothing here (and the server's instance has no rollback base of its own, D18)
+					}
+					if es != nil {
+						return c.Violation(sh.typ+":server-restore-differs", "call %s succeeds on an instance restored by import + ResetTransaction and is refused on one restored by import + ResetWired: %v", op, es)
+					}
+					if a, b := U.View(), S.View(); a != b {
+						return c.Violation(sh.typ+":server-restore-differs", "after the same successful call %s an instance restored by import + ResetTransaction reads %s, one restored by import + ResetWired (the server's way) reads %s", op, clip(a, 500), clip(b, 500))
+					}
+					c.Count("calls_on_server_style_restores", 1)
+				}
 			}
 		}
 		rep := h.Reps[r.Intn(len(h.Reps))]
